@@ -511,6 +511,10 @@ func c18(c *h.Ctx) {
 					doLine(level, true, cx, nil, msg+" literal", true, "line/printf-noargs")
 				}
 			}
+			// Printf-family calls WITHOUT operands whose format carries the escape of a literal percent sign
+			doLine(level, true, cx, nil, "disk 93%% used", true, "line/printf-noargs-percent")
+			doLine(level, true, cx, nil, "%%", true, "line/printf-noargs-percent")
+			doLine(level, true, cx, nil, "100%%%% sure, 50%%", true, "line/printf-noargs-percent")
 			doLine(level, false, cx, nil, "", true, "line/println-empty")
 			// outside the domain (newline in the message): correspondence only
 			doLine(level, false, cx, []interface{}{"a\nb"}, "", false, "line/newline(corr-only)")
